@@ -71,7 +71,7 @@ theorem pair_groupName (hok : markOK i gm = true) : am.name ∈ groupNames (meOf
 
 /-- the mark class of the pair exists and contains the mark glyph -/
 theorem pair_class (hok : markOK i gm = true) :
-    ∃ recs, ("MC" ++ am.name, recs) ∈ clsOf i al ∧ ∃ r ∈ recs, r.glyph = gm := by
+    ∃ recs, (cnOf i al am.name, recs) ∈ clsOf i al ∧ ∃ r ∈ recs, r.glyph = gm := by
   obtain ⟨ms, hms, ha⟩ := pair_me w p hok
   obtain ⟨_, _, _, _, _, hnd⟩ := mem_meOf w hms
   rw [clsOf_eq w]
@@ -79,7 +79,7 @@ theorem pair_class (hok : markOK i gm = true) :
   exact mem_map.mpr ⟨(gm, am), mem_groupOf_of hms ha hnd, rfl⟩
 
 /-- the base-side anchor refers to that class -/
-theorem pair_classOf (hok : markOK i gm = true) : classOf (kmOf i al) ab = some ("MC" ++ am.name) := by
+theorem pair_classOf (hok : markOK i gm = true) : classOf (kmOf i al) ab = some (cnOf i al am.name) := by
   obtain ⟨as, has, ha⟩ := p.hm
   have hsm := w.shape _ has _ ha p.cm
   have hkne : ab.key ≠ "" := by
@@ -87,7 +87,7 @@ theorem pair_classOf (hok : markOK i gm = true) : classOf (kmOf i al) ab = some 
     obtain ⟨_, hpk, _⟩ := hsm.mark p.mm
     obtain ⟨⟨c, r, e, _⟩, _⟩ := (plainKey_iff _).mp hpk
     intro e'; rw [e'] at e; simp at e
-  have hlook : alookup ab.key (kmOf i al) = some ("MC" ++ am.name) := by
+  have hlook : alookup ab.key (kmOf i al) = some (cnOf i al am.name) := by
     rw [kmOf_eq w]
     apply alookup_of_mem_nodup
     · -- keys are pairwise different (shown in makeClasses_meOf; re-derived here from the closed form)
@@ -118,8 +118,8 @@ end
 theorem clsOf_names_nodup {i : Input} {al : AList} (w : ALwf i al) : ((clsOf i al).map (·.1)).Nodup := by
   rw [clsOf_eq w, map_map]
   apply nodup_map_of_injOn (nodup_groupNames _)
-  intro x _ y _ hxy
-  exact (String.append_right_inj "MC").mp hxy
+  intro x hx y hy hxy
+  exact (makeClasses_meOf w).2 x hx y hy hxy
 
 /-- the members of a class of `build`, by name -/
 theorem members_clsOf {i : Input} {al : AList} (w : ALwf i al) {cn : String} {recs : List MarkRec}
